@@ -1320,6 +1320,10 @@ pub unsafe extern "C" fn SFileVerifyArchive(archive: HANDLE, flags: u32) -> bool
         };
         let file_list = file_list.unwrap_or_default();
 
+        // SFileVerifyFile locks ARCHIVES itself: release the guard first, otherwise
+        // this thread blocks on its own lock forever
+        drop(archives);
+
         // Verify each file individually
         for file_entry in file_list {
             // Skip special files and directories
